@@ -29,6 +29,15 @@ impl StateMachine<'_> {
                 return Ok(true);
             }
 
+            // In `diff -r` output the line stands alone between two file sections: if the header
+            // of the current file has been written already, the line is not about that file, and
+            // it is displayed like the "Only in" lines.
+            if self.source == Source::DiffUnified
+                && self.handled_diff_header_header_line_file_pair == self.current_file_pair
+            {
+                return self.handle_additional_cases(State::DiffHeader(DiffType::Unified));
+            }
+
             if self.minus_file != "/dev/null" {
                 relativize_path_maybe(&mut self.minus_file, self.config);
                 self.minus_file.push_str(" (binary file)");
